@@ -378,6 +378,8 @@ func registerSDK(e *Engine) {
 		}
 		return nil
 	}
+	in["github.com/cosmos/cosmos-sdk/store/types.PrefixEndBytes"] = func(p *Path, a []Value) Value { return p.prefixEndBytes(a[0]) }
+	in["github.com/cosmos/cosmos-sdk/types.PrefixEndBytes"] = func(p *Path, a []Value) Value { return p.prefixEndBytes(a[0]) }
 	in["github.com/cosmos/gogoproto/proto.EnumName"] = func(p *Path, a []Value) Value {
 		return VStr{p.opaqueString()}
 	}
@@ -420,4 +422,54 @@ func (p *Path) checkMarshalTimes(v Value) {
 			p.checkMarshalTimes(f)
 		}
 	}
+}
+
+// prefixEndBytes implements store/types.PrefixEndBytes exactly (increment the byte string as a
+// big-endian number, dropping trailing 0xff bytes; nil when all bytes are 0xff or the prefix is
+// empty), but keeps runs of 8 bytes that stem from one uint64 together (v -> v+1) so that later
+// key comparisons stay word-level instead of byte-level.
+func (p *Path) prefixEndBytes(v Value) Value {
+	sl, ok := v.(VSlice)
+	if !ok {
+		panic(engErr("PrefixEndBytes on %T", v))
+	}
+	if sl.Nil || sl.Len == 0 {
+		return VSlice{Nil: true}
+	}
+	ts, _ := byteTerms(sl)
+	n := len(ts)
+	for n > 0 {
+		if n >= 8 {
+			gs := groupBytes(ts[n-8 : n])
+			if len(gs) == 1 && gs[0].width == 8 {
+				src := gs[0].t
+				if p.Decide(Lt(src, IntC(IntTy{64, false}.Max()))) {
+					nv := Add(src, IntC64(1))
+					nv.lo, nv.hi = bi(1), IntTy{64, false}.Max()
+					es := make([]Value, n)
+					for i := 0; i < n-8; i++ {
+						es[i] = VInt{ts[i]}
+					}
+					for i := 0; i < 8; i++ {
+						es[n-8+i] = VInt{ByteOf(nv, 7-i)}
+					}
+					return VSlice{Obj: p.newObj(&VArray{E: es}, "prefixEnd"), Len: n, Cap: n}
+				}
+				n -= 8
+				continue
+			}
+		}
+		b := ts[n-1]
+		if p.Decide(Not(Eq(b, IntC64(255)))) {
+			es := make([]Value, n)
+			for i := 0; i < n-1; i++ {
+				es[i] = VInt{ts[i]}
+			}
+			nb := Add(b, IntC64(1))
+			es[n-1] = VInt{nb}
+			return VSlice{Obj: p.newObj(&VArray{E: es}, "prefixEnd"), Len: n, Cap: n}
+		}
+		n--
+	}
+	return VSlice{Nil: true}
 }
